@@ -76,6 +76,26 @@ def raw_cone(prog, roots):
     return order, left
 
 
+def index_from_find(bi, t):
+    """`s.split_at(i)` where i is the position `s.find(..)` / `s.rfind(..)` returned for the same string: always a character
+    boundary inside the string, cannot panic"""
+    if t.callee.path.split("::")[-1] not in ("split_at", "split_at_mut") or len(t.args) != 2 or "str" not in t.callee.path:
+        return False
+    o = bi.trace(t.args[1])
+    for _ in range(3):
+        if o.kind != "call":
+            return False
+        c = bi.call_at(o.data)
+        n = c.callee.path.split("::")[-1] if c.callee is not None else ""
+        if c.callee is not None and c.callee.path == "std::ops::Try::branch":
+            o = bi.trace(c.args[0])
+            continue
+        if n in ("find", "rfind") and "str" in c.callee.path:
+            return bi.trace(c.args[0]).key() == bi.trace(t.args[0]).key()
+        return False
+    return False
+
+
 @rule("C17", "R17.2", "the raw-field parse cone contains no call that can panic", floor=10)
 def r17_2(prog, out):
     roots = parse_roots(prog)
@@ -92,7 +112,7 @@ def r17_2(prog, out):
             t = blk.term
             if t.k == "call" and t.callee is not None:
                 p = t.callee.path
-                if p in L.MAY_PANIC and not (t.exp and any("select!" in e or "unreachable" in e for e in t.exp)):
+                if p in L.MAY_PANIC and not (t.exp and any("select!" in e or "unreachable" in e for e in t.exp)) and not index_from_find(bi, t):
                     bad.append((blk.idx, p))
                 if p.startswith("<tokio::time::Instant as std::ops::Add") or t.callee.target.startswith("<tokio::time::Instant as std::ops::Add"):
                     notes.append("Instant + Duration")
@@ -239,43 +259,81 @@ def region_interval_at(prog, bi, w, target_bb):
     return min(los), max(his)
 
 
-@rule("C17", "R17.4", "StreamingPull control-message checks end in INVALID_ARGUMENT and precede every effect", floor=1)
+@rule("C17", "R17.4", "a later StreamingPull message that sets subscription / max_outstanding_* is rejected with INVALID_ARGUMENT; an unset field is not", floor=3)
 def r17_4(prog, out):
-    # the per-message handler: the local coroutine awaited by a stream body after stream_next
-    m = model(prog)
-    handlers = []
-    for label, bid, kind in cancellable_roots(prog):
-        if kind != "stream":
+    """`set` for a proto3 scalar means different from the default: every value >= 1 of the two flow-control settings and
+    every non-empty subscription string must take the rejecting arm, 0 / "" must not."""
+    from mapstate import _bool_switches
+    from common import await_class
+    req = "crate::pubsub_proto::StreamingPullRequest"
+    numeric = ("max_outstanding_bytes", "max_outstanding_messages")
+    found = set()
+    for b in prog.facts.lib_bodies():
+        if b.file.startswith("/") or not b.coroutine:
             continue
-        bi = prog.info(bid)
-        from common import await_class
-        if not any(await_class(prog, bi, a) == "stream_next" for a in bi.awaits):
-            continue
-        for a in bi.awaits:
-            if await_class(prog, bi, a) == "local":
-                handlers.append(prog.body_of_type(bi.body, a.fut_ty))
-    if not handlers:
-        out.undecided("control-handler", "", "no per-message handler awaited by a stream body that reads the request stream")
-        return
-    for hid in handlers:
-        hi = prog.info(hid)
-        ev = m.events(hid)
-        direct_v = sorted(bb for bb, lst in ev.items() for e in lst if e.kind == "V" and e.label == "invalid_argument")
-        first_effects = []
-        from common import await_class
-        for a in hi.awaits:
-            if await_class(prog, hi, a) == "local":
-                cid = prog.body_of_type(hi.body, a.fut_ty)
-                if m.task_effect_label(cid):
-                    first_effects.append(a.poll_bb)
-        for n, vbb in enumerate(direct_v):
-            key = "control-check#%d:%s" % (n, prog.short(hid))
-            if not first_effects:
-                out.undecided(key, hi.loc(vbb), "handler has no effects")
-            elif all(not hi.cfg.can_reach(fe, vbb) for fe in first_effects):
-                out.holds(key, hi.loc(vbb), "structural check rejects with INVALID_ARGUMENT before any effect of the control message")
-            else:
-                out.violation(key, hi.loc(vbb), "a structural check of the control message runs after an effect")
+        bi = prog.info(b.id)
+
+        def rejects(tgt):
+            """every way on from tgt builds an INVALID_ARGUMENT status"""
+            if tgt is None:
+                return False
+            ia = {bb for bb, t in bi.calls(lambda c: c.path == "tonic::Status::invalid_argument")}
+            region = bi.cfg.reachable_from(tgt)
+            return bool(ia & region) and bi.cfg.escapes(tgt, ia, after=False) is None
+
+        for blk in b.blocks:
+            if blk.cleanup or blk.idx not in bi.cfg.reach:
+                continue
+            for st in blk.stmts:
+                if st.k != "assign" or not st.lhs.is_local() or st.rv.k != "bin" or st.rv.j["op"] not in ("Gt", "Ge", "Lt", "Le", "Eq", "Ne"):
+                    continue
+                a, c2 = st.rv.ops
+                op = st.rv.j["op"]
+                fld = None
+                for x, y, flip in ((a, c2, False), (c2, a, True)):
+                    if x.place is not None and y.const_int() is not None:
+                        cs = prog.receiver_origin(bi, x.place).cells()
+                        if cs and cs[-1][0] == req and cs[-1][1] in numeric:
+                            fld, cst = cs[-1][1], y.const_int()
+                            if flip:
+                                op = {"Lt": "Gt", "Le": "Ge", "Gt": "Lt", "Ge": "Le", "Eq": "Eq", "Ne": "Ne"}[op]
+                if fld is None:
+                    continue
+                ev = {"Eq": lambda v: v == cst, "Ne": lambda v: v != cst, "Gt": lambda v: v > cst, "Ge": lambda v: v >= cst,
+                      "Lt": lambda v: v < cst, "Le": lambda v: v <= cst}[op]
+                for sw, tr, fa in _bool_switches(bi, st.lhs.local):
+                    tr_rej, fa_rej = rejects(tr), rejects(fa)
+                    if tr_rej == fa_rej:
+                        continue
+                    found.add(fld)
+                    rej = (lambda v: ev(v)) if tr_rej else (lambda v: not ev(v))
+                    key = "control-field:%s" % fld
+                    missed = [v for v in (1, 2, 1000, 2 ** 63 - 1) if not rej(v)]
+                    if rej(0):
+                        out.violation(key, bi.loc(sw), "a control message that leaves %s unset (0) is rejected" % fld)
+                    elif missed:
+                        out.violation(key, bi.loc(sw), "a later StreamingPull message that sets %s to %s is accepted instead of being rejected with INVALID_ARGUMENT" % (fld, missed[0]))
+                    else:
+                        out.holds(key, bi.loc(sw), "%s >= 1 -> INVALID_ARGUMENT, 0 accepted" % fld)
+        for bb, t in bi.calls(lambda c: c.path.endswith("::is_empty")):
+            if not t.args or t.dest is None or not t.dest.is_local():
+                continue
+            cs = prog.receiver_origin(bi, t.args[0]).cells()
+            if not (cs and cs[-1] == (req, "subscription")):
+                continue
+            # only the per-message check (the first request's subscription is parsed, not tested for emptiness)
+            for sw, tr, fa in _bool_switches(bi, t.dest.local):
+                if rejects(fa) == rejects(tr):
+                    continue
+                found.add("subscription")
+                key = "control-field:subscription"
+                if rejects(fa):
+                    out.holds(key, bi.loc(sw), "a non-empty subscription in a later message -> INVALID_ARGUMENT, empty accepted")
+                else:
+                    out.violation(key, bi.loc(sw), "a later StreamingPull message is rejected when its subscription field is EMPTY (and accepted when it names a subscription)")
+    for fld in numeric + ("subscription",):
+        if fld not in found:
+            out.violation("control-field:%s" % fld, "", "no check rejects a later StreamingPull message that sets %s" % fld)
 
 
 @rule("C17", "R17.5", "unsupported push endpoints are rejected before anything is created", floor=1)
